@@ -232,3 +232,85 @@ func ForwardData(target common.Address, payload []byte) []byte {
 	copy(out[12:], target.Bytes())
 	return append(out, payload...)
 }
+
+// ---- a labelled mini assembler and the soft-failing token ---------------------------------
+
+type lasm struct {
+	code   []byte
+	labels map[string]int
+	refs   map[int]string // position of a 2-byte immediate -> label
+}
+
+func newLasm() *lasm { return &lasm{labels: map[string]int{}, refs: map[int]string{}} }
+
+func (l *lasm) op(b ...byte) *lasm { l.code = append(l.code, b...); return l }
+func (l *lasm) label(n string) *lasm {
+	l.labels[n] = len(l.code)
+	return l.op(JUMPDEST)
+}
+
+func (l *lasm) pushLabel(n string) *lasm {
+	l.op(PUSH2, 0, 0)
+	l.refs[len(l.code)-2] = n
+	return l
+}
+
+func (l *lasm) bytes() []byte {
+	out := append([]byte{}, l.code...)
+	for pos, n := range l.refs {
+		o := l.labels[n]
+		out[pos], out[pos+1] = byte(o>>8), byte(o)
+	}
+	return out
+}
+
+// SoftFailToken is the runtime code of an ERC-20 that follows the EIP-20 convention of
+// reporting a failed transfer by returning false instead of reverting (it never reverts):
+// name / symbol / decimals (18) / totalSupply / balanceOf / transfer, plus an open
+// mint(address,uint256) for fixtures. Every other selector returns 32 zero bytes.
+func SoftFailToken(symbol string) []byte {
+	const (
+		lt, eq, shr, push4, push21 = 0x10, 0x14, 0x1c, 0x63, 0x74
+	)
+	total := append([]byte{push21, 1}, make([]byte, 20)...) // storage slot 2^160: above every address
+	l := newLasm()
+	l.op(PUSH1, 0, CALLDATALOAD, PUSH1, 0xe0, shr)
+	sel := func(s [4]byte, lab string) {
+		l.op(DUP1, push4, s[0], s[1], s[2], s[3], eq).pushLabel(lab).op(JUMPI)
+	}
+	sel([4]byte{0x06, 0xfd, 0xde, 0x03}, "name")
+	sel([4]byte{0x95, 0xd8, 0x9b, 0x41}, "name")
+	sel([4]byte{0x31, 0x3c, 0xe5, 0x67}, "decimals")
+	sel([4]byte{0x18, 0x16, 0x0d, 0xdd}, "total")
+	sel([4]byte{0x70, 0xa0, 0x82, 0x31}, "balanceOf")
+	sel([4]byte{0x40, 0xc1, 0x0f, 0x19}, "mint")
+	sel([4]byte{0xa9, 0x05, 0x9c, 0xbb}, "transfer")
+	ret32 := func() { l.op(PUSH1, 0x20, PUSH1, 0, RETURN) }
+	l.label("zero")
+	ret32()
+	l.label("name")
+	l.op(PUSH1, 0x20, PUSH1, 0, MSTORE, PUSH1, byte(len(symbol)), PUSH1, 0x20, MSTORE)
+	sym := make([]byte, 32)
+	copy(sym, symbol)
+	l.op(PUSH32).op(sym...).op(PUSH1, 0x40, MSTORE, PUSH1, 0x60, PUSH1, 0, RETURN)
+	l.label("decimals").op(PUSH1, 18, PUSH1, 0, MSTORE)
+	ret32()
+	l.label("total").op(total...).op(SLOAD, PUSH1, 0, MSTORE)
+	ret32()
+	l.label("balanceOf").op(PUSH1, 4, CALLDATALOAD, SLOAD, PUSH1, 0, MSTORE)
+	ret32()
+	credit := func() { // balance[to] += amount
+		l.op(PUSH1, 0x24, CALLDATALOAD, PUSH1, 4, CALLDATALOAD, SLOAD, ADD, PUSH1, 4, CALLDATALOAD, SSTORE)
+	}
+	retTrue := func() { l.op(PUSH1, 1, PUSH1, 0, MSTORE); ret32() }
+	l.label("mint")
+	credit()
+	l.op(PUSH1, 0x24, CALLDATALOAD).op(total...).op(SLOAD, ADD).op(total...).op(SSTORE)
+	retTrue()
+	l.label("transfer")
+	l.op(PUSH1, 0x24, CALLDATALOAD, CALLER, SLOAD, lt).pushLabel("zero").op(JUMPI) // balance < amount: return false
+	l.op(PUSH1, 0x24, CALLDATALOAD, CALLER, SLOAD, SUB, CALLER, SSTORE)
+	credit()
+	retTrue()
+	return l.bytes()
+}
